@@ -209,7 +209,10 @@ namespace sim
 		int const version = m_out_buffer[0];
 		int const command = m_out_buffer[1];
 		m_command = command;
-		++m_cmd_counts[command - 1];
+		// the command byte comes straight off the wire and has not been
+		// validated yet. Only count the commands there is a counter for
+		if (command >= 1 && command <= int(m_cmd_counts.size()))
+			++m_cmd_counts[command - 1];
 
 		if (version != m_version)
 		{
